@@ -780,3 +780,74 @@ async fn block_stripped_of_all_its_transactions_is_refused() {
     let _ = k.add_block(genuine).await;
     assert_eq!(k.blockchain_lock.read().await.get_latest_block_hash(), signed_hash, "setup: the genuine block is accepted by a fresh node");
 }
+
+/// C13 (last clause) / C01: an output older than the retention window can no longer be spent. An output too small to
+/// pay the rebroadcast fee is not rebroadcast — its value is collected as fees by the block that lets it expire; after
+/// that block nobody may spend it. (Fee-bearing chain built by the node's own producer, genesis_period + 4 blocks.)
+#[tokio::test]
+#[serial_test::serial]
+async fn expired_dust_output_cannot_be_spent() {
+    use crate::core::consensus::wallet::Wallet;
+    use crate::core::util::crypto::generate_keys;
+    const FEE: Currency = 100_000;
+    async fn make_block(t: &mut TestManager, recipient: SaitoPublicKey, amount: Currency, with_gt: bool, extra: Option<Transaction>) -> Block {
+        let parent_hash = t.latest_block_hash;
+        let (parent_id, parent_ts, parent_difficulty) = { let bc = t.blockchain_lock.read().await; let p = bc.get_block(&parent_hash).unwrap(); (p.id, p.timestamp, p.difficulty) };
+        let configs = t.config_lock.read().await;
+        let gp = configs.get_consensus_config().unwrap().genesis_period;
+        let (public_key, private_key) = { let w = t.wallet_lock.read().await; (w.public_key, w.private_key) };
+        let mut txs: AHashMap<SaitoSignature, Transaction> = Default::default();
+        { let mut w = t.wallet_lock.write().await; let mut tx = Transaction::create(&mut w, recipient, amount, FEE, false, None, parent_id, gp).unwrap(); tx.sign(&private_key); tx.generate(&public_key, 0, 0); txs.insert(tx.signature, tx); }
+        if let Some(x) = extra { txs.insert(x.signature, x); }
+        let mut gttx = None;
+        if with_gt { let gt = TestManager::create_golden_ticket(t.wallet_lock.clone(), parent_hash, parent_difficulty).await; let mut g = Wallet::create_golden_ticket_transaction(gt, &public_key, &private_key).await; g.generate(&public_key, 0, 0); gttx = Some(g); }
+        let bc = t.blockchain_lock.read().await;
+        let mut b = Block::create(&mut txs, parent_hash, std::ops::Deref::deref(&bc), parent_ts + 120_000, &public_key, &private_key, gttx, std::ops::Deref::deref(&configs), &t.storage).await.unwrap();
+        b.generate().unwrap(); b.sign(&private_key);
+        b
+    }
+    let mut t = TestManager::default();
+    t.initialize_with_timestamp(1, 100_000_000_000, 0).await;
+    let gp = { t.config_lock.read().await.get_consensus_config().unwrap().genesis_period };
+    let my_key = { t.wallet_lock.read().await.public_key };
+    let (dust_pk, dust_sk) = generate_keys();
+    let stranger = generate_keys().0;
+    // block 3 pays one nolan to a key of its own: far too little to ever pay a rebroadcast fee
+    for id in 2..=(gp + 3) {
+        let b = match id { 2 => make_block(&mut t, stranger, 100_000, true, None).await, 3 => make_block(&mut t, dust_pk, 1, false, None).await, _ => make_block(&mut t, my_key, 1_000, id % 2 == 0, None).await };
+        let r = t.add_block(b).await;
+        assert!(matches!(r, AddBlockResult::BlockAddedSuccessfully(..)), "set-up block {} not added: {:?}", id, r);
+    }
+    // the dust output as the ledger knows it
+    let dust: Slip = {
+        let bc = t.blockchain_lock.read().await;
+        let h3 = bc.blockring.get_longest_chain_block_hash_at_block_id(3).unwrap();
+        let mut b3 = t.storage.load_block_from_disk(t.storage.generate_block_filepath(bc.blocks.get(&h3).unwrap()).as_str()).await.unwrap();
+        b3.generate().unwrap();
+        b3.transactions.iter().flat_map(|tx| tx.to.iter()).find(|s| s.public_key == dust_pk && s.amount == 1).expect("the dust output of block 3").clone()
+    };
+    assert_eq!(t.blockchain_lock.read().await.utxoset.get(&dust.utxoset_key), Some(&true), "setup: the dust output is unspent while block 3 is inside the window");
+    // block gp + 4 lets block 3 expire
+    let expiring = make_block(&mut t, my_key, 1_000, (gp + 4) % 2 == 0, None).await;
+    let rebroadcast_of_dust = expiring.transactions.iter().any(|tx| tx.transaction_type == TransactionType::ATR && tx.from.iter().any(|s| s.utxoset_key == dust.utxoset_key));
+    let collected = expiring.total_fees_atr;
+    let r = t.add_block(expiring).await;
+    assert!(matches!(r, AddBlockResult::BlockAddedSuccessfully(..)), "the block that lets block 3 expire must be accepted: {:?}", r);
+    assert!(!rebroadcast_of_dust, "setup: one nolan must be too small to be rebroadcast");
+    // the owner now tries to spend it
+    let mut spend = Transaction::default();
+    spend.add_from_slip(dust.clone());
+    let mut o = Slip::default(); o.public_key = dust_pk; o.amount = 1; spend.add_to_slip(o);
+    spend.sign(&dust_sk);
+    spend.generate(&my_key, 0, 0);
+    let accepted_by_validate = { let bc = t.blockchain_lock.read().await; spend.validate(&bc.utxoset, &bc, true) };
+    let next = make_block(&mut t, my_key, 1_000, (gp + 5) % 2 == 0, Some(spend.clone())).await;
+    let carries = next.transactions.iter().any(|tx| tx.signature == spend.signature);
+    let hn = next.hash;
+    let rn = futures::FutureExt::catch_unwind(std::panic::AssertUnwindSafe(t.add_block(next))).await;
+    let tip_is_next = t.blockchain_lock.read().await.get_latest_block_hash() == hn;
+    if accepted_by_validate || (carries && (rn.is_err() || tip_is_next)) {
+        witness(format!("a 1-nolan output of block 3 (retention window {} blocks) was not rebroadcast by block {} — too small for the fee, the block collected {} nolan of expired value as fees — and is spent afterwards: Transaction::validate says {}, a block at height {} carrying the spend {}",
+            gp, gp + 4, collected, accepted_by_validate, gp + 5, if rn.is_err() { "aborts the node".to_string() } else if tip_is_next { "becomes the tip".to_string() } else { "is refused".to_string() }));
+    }
+}
